@@ -60,7 +60,8 @@ PROPS: dict[str, dict[str, Any]] = {
     },
     "C11": {
         "level": "exploration",
-        "sidecars": [],
+        "sidecars": ["contracts/c11.py"],
+        "native_n": {"quick": 400, "thorough": 20000},
         "bounded": [{"script": "bounded/store_harness.py", "args": ["--mode", "c11"]}],
         "rule": "bounded stand-in: stores built from 1-3 traces, each one of 17 variants (complete 1-2 span traces at 6 grid positions, a trace with "
                 "inconsistent workflow names, traces with a dangling parent, a trace straddling the whole window), all pairs exhaustively and triples "
